@@ -350,11 +350,15 @@ def _fabric_contracts(it, self, mine0, any0):
 
     def subscribed(it_, fn, args, kwargs):
         q = args[3] if len(args) > 3 else kwargs.get('queue')
+        kind = args[2] if len(args) > 2 else kwargs.get('queue_type')
+        if not isinstance(kind, str) or kind not in ('fifo', 'lifo'):
+            raise Raised('LookupError')         # what the fabric does with any other kind
+        m, a = (mine0, any0) if not isinstance(mine0, dict) else (mine0[kind], any0[kind])
         if q is None:
-            return SBool(any0)                  # "has anybody subscribed to this signal?"
+            return SBool(a)                     # "has anybody subscribed to this signal in this way?"
         it_.c.prove('ao.subscribed:call-pre/asks-about-its-own-queue',
                     it_.c.to_ref(q) == it_.c.hget(self, 'queue'), tags=('C07',))
-        return SBool(mine0)                     # "has this queue subscribed to it?"  (proved: fabric.subscribed target)
+        return SBool(m)                         # "has this queue subscribed to it in this way?"  (fabric.subscribed target)
 
     def pub(it_, fn, args, kwargs):
         it_.c.pyghost.setdefault('fab_publish', []).append(tuple(args[1:]) + tuple(kwargs.values()))
@@ -393,9 +397,11 @@ def t_ao_subscribe(running, sig_kind):
     def run(it):
         c, g = it.c, it.c.ghost
         self = _ao_for_pubsub(it, running)
-        mine0 = c.fresh('this_queue_already_subscribed', z3.BoolSort())
-        any0 = c.fresh('somebody_subscribed', z3.BoolSort())
-        c.assume(z3.Implies(mine0, any0))
+        # per delivery kind: the fifo and the lifo registries are separate
+        mine0 = {k: c.fresh('this_queue_already_subscribed_' + k, z3.BoolSort()) for k in ('fifo', 'lifo')}
+        any0 = {k: c.fresh('somebody_subscribed_' + k, z3.BoolSort()) for k in ('fifo', 'lifo')}
+        for k in ('fifo', 'lifo'):
+            c.assume(z3.Implies(mine0[k], any0[k]))
         _fabric_contracts(it, self, mine0, any0)
         sig = _sig_arg(it, sig_kind)
         qk = c.choose(3, 'queue_type')
@@ -412,7 +418,7 @@ def t_ao_subscribe(running, sig_kind):
             ok = len(subs) == 1 and c.to_ref(subs[0][0]).eq(c.hget(self, 'queue')) and _same(c, subs[0][1], sig) \
                 and subs[0][2] == want if len(subs) == 1 else False
             c.prove('ao.subscribe:post/own-queue-registered-for-the-signal',
-                    z3.Or(mine0, z3.BoolVal(bool(ok))), tags=('C07',))
+                    z3.Or(mine0[want], z3.BoolVal(bool(ok))), tags=('C07',))
             c.prove('ao.subscribe:post/nothing-else-registered', len(subs) <= 1, tags=('C07',))
         else:
             Q1 = view(it, d)
